@@ -20,7 +20,8 @@ import (
 //   spec.kids[]        {apiVersion, kind, name, ns?, value, metaExtra?{...copied into metadata}, status?(copied as the child's status)}
 //   spec.statusExtra   copied verbatim into the returned status
 //   spec.rawStatus     returned as the status as-is; spec.nullStatus / spec.omitStatus: null / no status
-//   spec.resyncAfter   number: answered as resyncAfterSeconds
+//   spec.resyncAfter   number: answered as resyncAfterSeconds (spec.template.resyncAfter: revisioned variant)
+//   spec.template.finalize  overrides spec.finalize per parent revision; "keep" = finalized at once, children stay
 //   spec.finalize      "all" (default: drop everything at once) | "step" (one child per call)
 
 // KidSpec builds one spec.kids entry.
@@ -146,7 +147,9 @@ func Expand(req Obj, rootField, childrenField, responseChildrenField string) Obj
 		}
 	}
 	resp := Obj{"status": status}
-	if ra, ok := spec["resyncAfter"]; ok {
+	if ra, ok := Nested(spec, "template", "resyncAfter"); ok {
+		resp["resyncAfterSeconds"] = ra // revisioned variant
+	} else if ra, ok := spec["resyncAfter"]; ok {
 		// a polling hook: asks to be called again after so many seconds (every answer, every revision)
 		resp["resyncAfterSeconds"] = ra
 	}
@@ -163,6 +166,22 @@ func Expand(req Obj, rootField, childrenField, responseChildrenField string) Obj
 
 	if finalizing {
 		fin, _ := spec["finalize"].(string)
+		if tf, ok := Nested(spec, "template", "finalize"); ok {
+			// a finalize decision that depends on a revisioned field: during a rolling update the
+			// per-revision finalize calls may disagree
+			fin, _ = tf.(string)
+		}
+		if fin == "keep" {
+			// finalized at once, every child stays desired
+			for _, k := range kids {
+				if kid, _ := k.(map[string]interface{}); kid != nil {
+					children = append(children, BuildChild(kid, labels, rev, extra))
+				}
+			}
+			resp[responseChildrenField] = children
+			resp["finalized"] = true
+			return resp
+		}
 		if fin == "step" && nObserved > 0 {
 			// keep everything observed except the alphabetically last one
 			type ent struct {
